@@ -507,13 +507,13 @@ where
     match ac.slot s with
     | none => stop { k with bad := some "wait: unbound slot" } []
     | some (i, st) =>
-      let kind := (k.impl i).kind
       let okEvs := mk "wait" s!"{s},ok" ++ timesEv k a s i ++ (if orCancel then mk "state" s!"{s},FINISHED" else [])
       match stage with
       | 0 =>
         if st == .canceled then stop { k with bad := some "wait on a canceled activity: outside the modelled fragment" } []
-        -- Comm::wait_for / Mess::wait_for: `case State::FINISHED: break;` (no simcall); Activity::wait_for: always a simcall
-        else if st == .finished && (kind == .comm || kind == .mget || kind == .mput) then next k okEvs
+        -- the harness (like ActivitySet) holds `ActivityPtr`s: `Activity::wait_for` is NOT virtual, so the base version
+        -- runs for every kind (the Comm/Mess overrides, which skip the simcall when FINISHED, are not reached):
+        -- always one blocking simcall; on a finished activity it is answered at once by `finish()`
         else stop (k.issue a (.waitFor i tau) true) []
       | 1 =>
         match ac.res with
@@ -536,6 +536,7 @@ structure St where
   k : K := {}
   ties : List Nat := []        -- oracle resolving the equal-date choices the code leaves to its heaps
   arities : List Nat := []     -- arity of every choice point passed (most recent first); used by the driver's search
+  choiceAt : List Nat := []    -- length of the log when each of these choices was made (prunes the driver's search)
   done : Bool := false
   fired : List (Rat × Timer) := []    -- ghost: (clock, timer) for every timer callback executed
   popped : List (Rat × HeapE) := []   -- ghost: (clock, entry) for every action completed / latency paid by update_actions_state
@@ -545,8 +546,8 @@ structure St where
 def pick (n : Nat) (s : St) : Nat × St :=
   if n ≤ 1 then (0, s) else
   match s.ties with
-  | [] => (0, { s with arities := n :: s.arities })
-  | t :: ts => (t % n, { s with ties := ts, arities := n :: s.arities })
+  | [] => (0, { s with arities := n :: s.arities, choiceAt := s.log.length :: s.choiceAt })
+  | t :: ts => (t % n, { s with ties := ts, arities := n :: s.arities, choiceAt := s.log.length :: s.choiceAt })
 
 def removeNth {α} : List α → Nat → List α
   | [], _ => []
